@@ -48,6 +48,9 @@ def run_C20(ctx, rep):
     lib_rules.check_L1(ctx, rep)
     lib_rules.check_L1b(ctx, rep)
     lib_rules.check_L31(ctx, rep)
+    # the generated parallel code: dedup / append / row ids / the lattice insertion mutex protect what they have to under any number of
+    # workers (with one worker every interleaving is sequential; a violation here makes the result depend on the pool size)
+    gen_driver.run_gen(ctx, rep, ['G1G3', 'G14', 'G15'], only_par=True, floors={'G1': 100, 'G14': 100, 'G15': 15})
 
 
 def run_C10(ctx, rep):
@@ -455,7 +458,7 @@ PROPS = {
         'rule_text': 'one instance = one obligation of one implementation (entry arm, drain loop, swap, freeze arm, delegated part)',
     },
     'C20': {
-        'run': run_C20, 'corpus': False, 'level': 'other',
+        'run': run_C20, 'level': 'other',
         'explanation': 'L8: inventory of all statics of ascent / ascent_base / ascent-byods-rels; values of mutable statics never flow '
                        'into logic (only `STATIC += ..` stores), no interior-mutable process-wide cell except the once-initialised '
                        'shard amount, which every DashMap construction uses (so shard-wise merges cannot depend on the pool current at '
@@ -519,7 +522,7 @@ _ADDENDA = {
     'C17': ' Also: L11 mean accumulates in f64, count uses a size hint only under lower == upper, percentile ranks over the multiset, L11.all (no row-dropping adaptor).',
     'C19': ' Also: L13, L27 (whole-index walks leave no shard out), L31, L1b, L9 on the slot index of CRelNoIndex, L4 O2c (collection-valued overwriting insert) and '
            'quiet early exits in the merge loops.',
-    'C20': ' Also: L8 lower bound of the shard amount over all pool sizes, L13, L27, L1 / L1b / L31 (an insertion that is not one critical section makes the result '
+    'C20': ' Also: G1 / G14 / G15 on the generated parallel code, L8 lower bound of the shard amount over all pool sizes, L13, L27, L1 / L1b / L31 (an insertion that is not one critical section makes the result '
            'depend on the pool size).',
 }
 for _pid, _txt in _ADDENDA.items():
